@@ -217,6 +217,7 @@ class _Acc:
         self.viol = {}  # sig -> {"message","case","count"}
         self.invalid = 0
         self.skipped_budget = 0
+        self.errors = []  # harness errors of single cases (text); decided by the driver once all verdicts are in
 
     def add(self, case, res: Result):
         self.evaluations += 1
@@ -249,6 +250,7 @@ class _Acc:
             "viol": self.viol,
             "invalid": self.invalid,
             "skipped_budget": self.skipped_budget,
+            "errors": self.errors,
         }
 
 
@@ -278,6 +280,11 @@ def _worker(args):
                     acc.add(case, guarded_run(mod, case))
                 except InvalidCase:
                     acc.invalid += 1
+                except HarnessError as exc:
+                    # a case the harness cannot judge does not hide what the oracles say about the other cases
+                    if len(acc.errors) >= 20:
+                        raise
+                    acc.errors.append("".join(traceback.format_exception(exc))[-4000:])
 
         # --- generated cases
         budget = mod.BUDGET[tier]
@@ -309,6 +316,10 @@ def _worker(args):
                     acc.add(case, guarded_run(mod, case))
                 except InvalidCase:
                     acc.invalid += 1
+                except HarnessError as exc:
+                    if len(acc.errors) >= 20:
+                        raise
+                    acc.errors.append("".join(traceback.format_exception(exc))[-4000:])
 
             prop()
         return ("ok", acc.export())
@@ -437,6 +448,9 @@ def run_check(mod, tier):
     if errors:
         print("HARNESS ERROR in worker:\n" + errors[0], file=sys.stderr)
         return 2
+    # harness errors of single cases: fatal (exit 2) unless the oracles found violations in other cases - then those are
+    # reported, with the harness errors noted on stderr (never on a tree without violations: there the check is broken)
+    case_errors = [e for _, o in outs for e in o.get("errors", [])]
 
     evaluations = replayed
     nontrivial = set()
@@ -455,6 +469,11 @@ def run_check(mod, tier):
                 samples.append(s)
         for sig, v in o["viol"].items():
             note_violation(sig, v["message"], v["case"], v["count"])
+    if case_errors and not new_viol:
+        print(f"HARNESS ERROR in {len(case_errors)} case(s):\n" + case_errors[0], file=sys.stderr)
+        return 2
+    if case_errors:
+        print(f"note: {len(case_errors)} case(s) ended in a harness error and were not judged; first:\n" + case_errors[0][-600:], file=sys.stderr)
 
     # 3. shrink + report new signatures
     outdir = os.path.join(os.environ.get("VERIF_SCRATCH") or VERIF, "out", mod.ID)
